@@ -46,6 +46,128 @@ func checkC10(p *Prog, r *Report) {
 	c10PrepareAgrees(p, r)
 	c10PeerDC(p, r)
 	c10AddressOrder(p, r)
+	c10LocalFacts(p, r)
+}
+
+// c10LocalFacts: the backend-derived facts the local row falls back on, and the address a
+// connection without a configured rpc-address is shown.
+func c10LocalFacts(p *Prog, r *Report) {
+	const rule = "C10.local-facts"
+	r.Rule(rule, "the backend data center the proxy falls back on is read from the host built from the system.local row alone (before the peers are appended and the list is sorted); without a configured rpc-address the address of the local row is the one the asking connection was accepted on, per connection, never a value kept in the shared proxy")
+	// (a) ClusterInfo.LocalDC
+	var bad []string
+	n := 0
+	for _, fn := range p.ScopedFuncs("proxycore") {
+		for _, lit := range structLits(fn, func(t types.Type) bool { return typeIs(t, "proxycore", "ClusterInfo") }) {
+			v, ok := lit["LocalDC"]
+			if !ok {
+				continue
+			}
+			n++
+			okSrc := false
+			why := "it is " + valDesc(v)
+			if f, hostV := loadedField(v); f != nil && f.Name() == "DC" && hostV != nil {
+				// hostV = *(&S[0])
+				if ld, ok := hostV.(*ssa.UnOp); ok {
+					if ia, ok := ld.X.(*ssa.IndexAddr); ok {
+						if k, isK := constInt(ia.Index); isK && k == 0 {
+							srcs := origins(ia.X)
+							if sl, isLd := ia.X.(*ssa.UnOp); isLd {
+								// a variable assigned several times (captured by the sort callback): the store this load sees
+								if rs := reachingStore(sl); rs != nil {
+									srcs = origins(rs.Val)
+								}
+							}
+							okSrc = len(srcs) > 0
+							for _, o := range srcs {
+								call, isCall := o.(*ssa.Call)
+								if !isCall {
+									okSrc = false
+									why = "the list indexed is " + valDesc(o)
+									continue
+								}
+								for _, a := range call.Call.Args {
+									if _, isSlice := a.Type().Underlying().(*types.Slice); !isSlice {
+										continue
+									}
+									if c, isC := a.(*ssa.Const); !isC || c.Value != nil {
+										// a list that already holds other hosts was passed in: element 0 is no longer the local host
+										allNil := true
+										aos := origins(a)
+										if al, isLd := a.(*ssa.UnOp); isLd {
+											if zeroAtLoad(al) {
+												aos = nil // the variable still has its zero value here
+											} else if rs := reachingStore(al); rs != nil {
+												aos = origins(rs.Val)
+											}
+										}
+										for _, ao := range aos {
+											if c2, isC2 := ao.(*ssa.Const); !isC2 || c2.Value != nil {
+												allNil = false
+											}
+										}
+										if !allNil {
+											okSrc = false
+											why = "element 0 of a list that other hosts were appended to (and that is sorted by key)"
+										}
+									}
+								}
+							}
+						}
+					}
+				}
+			}
+			if !okSrc {
+				bad = append(bad, fmt.Sprintf("%s: ClusterInfo.LocalDC is not the data center of the host built from the system.local row alone (%s): with more than one backend data center the proxy presents itself (and peers without a data center) in the data center of whichever host sorts first", p.Pos(lit["\x00pos"].Pos()), why))
+			}
+		}
+	}
+	r.check(len(bad) == 0 && n > 0, rule, "ClusterInfo.LocalDC", "", fmt.Sprintf("%d literal(s)", n), strings.Join(dedupe(bad), " || "))
+
+	// (b) the local address without rpc-address: per connection
+	cr := getClientRoles(p)
+	var ipFns []*ssa.Function
+	for _, m := range p.methodsOf(cr.cl) {
+		res := m.Signature.Results()
+		if res.Len() == 1 && len(m.Params) == 1 {
+			if n := namedOf(res.At(0).Type()); n != nil && n.Obj().Name() == "IP" && n.Obj().Pkg() != nil && n.Obj().Pkg().Path() == "net" {
+				ipFns = append(ipFns, m)
+			}
+		}
+	}
+	var ib []string
+	for _, fn := range ipFns {
+		for _, f := range withClosures(fn) {
+			eachInstr(f, func(in ssa.Instruction) {
+				// a store of an address into the shared proxy object from the per-connection accessor
+				if st, ok := in.(*ssa.Store); ok {
+					if fa, ok := st.Addr.(*ssa.FieldAddr); ok && typeIs(fa.X.Type(), "proxy", "Proxy") {
+						ib = append(ib, fmt.Sprintf("%s: %s keeps the address in Proxy.%s: the first connection's local address is then shown to clients that reached the proxy through another address", p.Pos(st.Pos()), fn.Name(), fieldOfAddr(fa).Name()))
+					}
+				}
+			})
+		}
+		eachInstr(fn, func(in ssa.Instruction) {
+			ret, ok := in.(*ssa.Return)
+			if !ok {
+				return
+			}
+			for _, o := range origins(ret.Results[0]) {
+				path := fieldPath(o)
+				switch {
+				case strings.Contains(path, "localNode"):
+					// the configured rpc-address
+				case strings.Contains(path, "LocalAddr"):
+					// this connection's own local address
+				default:
+					if f, base := loadedField(o); f != nil && base != nil && typeIs(base.Type(), "proxy", "Proxy") {
+						ib = append(ib, fmt.Sprintf("%s: %s returns Proxy.%s, a value shared by all connections", p.Pos(ret.Pos()), fn.Name(), f.Name()))
+					}
+				}
+			}
+		})
+	}
+	r.check(len(ib) == 0 && len(ipFns) > 0, rule, "local address accessor", "", fmt.Sprintf("%d accessor(s)", len(ipFns)), strings.Join(dedupe(ib), " || "))
 }
 
 // c10PeerDC: a peer entry without a data center gets this proxy's own effective data center (the
